@@ -5,6 +5,7 @@ use std::io::{BufRead, Write};
 
 mod ops_layer;
 mod ops_parse;
+mod ops_writer;
 
 fn main() {
     let stdin = std::io::stdin();
@@ -31,6 +32,7 @@ fn dispatch(op: &str, req: &Value) -> Value {
     match op {
         "version" | "api" | "newtype" => ops_parse::run(op, req),
         "layer-struct" => ops_layer::layer_struct(req),
+        "writer" => ops_writer::run(req),
         _ => json!({"error": format!("unknown op {op}")}),
     }
 }
